@@ -218,6 +218,18 @@ pub fn dec_all(v: &serde_json::Value) -> Option<Vec<Machine>> {
 pub fn cdist(v: f64) -> Dist {
     Dist::new(DistType::Uniform { low: v, high: v }, 0.0, 0.0)
 }
+/// constant distribution that, one time in four, carries a start offset and / or
+/// a maximum: the value is still a constant, so the reference semantics computes
+/// it from the documented rule (start added, clamped to [0, max]) without
+/// consulting the crate's sampler
+pub fn cdist_off(g: &mut Gen, v: f64) -> Dist {
+    if g.chance(0.75) {
+        return cdist(v);
+    }
+    let start = *g.pick(&[0.0, 1.0, 250.0, 1e6, 0.5]);
+    let max = *g.pick(&[0.0, 0.0, 0.4, 700.0, 2e6]);
+    Dist::new(DistType::Uniform { low: v, high: v }, start, max)
+}
 pub fn udist(lo: f64, hi: f64) -> Dist {
     Dist::new(DistType::Uniform { low: lo, high: hi }, 0.0, 0.0)
 }
@@ -424,7 +436,23 @@ pub fn wild_dist(g: &mut Gen) -> Dist {
                 let a = wild_f(g) * if g.chance(0.2) { -1.0 } else { 1.0 };
                 let b = wild_f(g);
                 let (lo, hi) = if a <= b { (a, b) } else { (b, a) };
-                if g.chance(0.3) {
+                if g.chance(0.12) {
+                    // ranges at and beyond the limit of what validation admits
+                    // (high - low must stay finite)
+                    let ends = [
+                        0.0,
+                        f64::MAX,
+                        -f64::MAX,
+                        f64::MAX / 2.0,
+                        -f64::MAX / 2.0,
+                        1e308,
+                        -1e308,
+                        8.98846567431158e307,
+                    ];
+                    let x = *g.pick(&ends);
+                    let y = *g.pick(&ends);
+                    DistType::Uniform { low: x.min(y), high: x.max(y) }
+                } else if g.chance(0.3) {
                     DistType::Uniform { low: lo, high: lo }
                 } else if g.chance(0.1) {
                     // adjacent floats
@@ -521,7 +549,10 @@ pub fn wild_dist(g: &mut Gen) -> Dist {
 
 fn gen_time_dist(g: &mut Gen, cfg: &MachCfg) -> Dist {
     match cfg.family {
-        Family::Det => cdist(*g.pick(&cfg.times_us)),
+        Family::Det => {
+            let v = *g.pick(&cfg.times_us);
+            cdist_off(g, v)
+        }
         Family::Dyadic => {
             if g.chance(0.5) {
                 cdist(*g.pick(&cfg.times_us))
@@ -580,7 +611,10 @@ fn gen_time_dist(g: &mut Gen, cfg: &MachCfg) -> Dist {
 
 fn gen_limit_dist(g: &mut Gen, cfg: &MachCfg) -> Dist {
     match cfg.family {
-        Family::Det => cdist(*g.pick(&cfg.limits)),
+        Family::Det => {
+            let v = *g.pick(&cfg.limits);
+            cdist_off(g, v)
+        }
         Family::Dyadic => {
             if g.chance(0.6) {
                 cdist(*g.pick(&cfg.limits))
@@ -609,7 +643,10 @@ fn gen_counter_dist(g: &mut Gen, cfg: &MachCfg) -> Dist {
         9.3e18,
     ];
     match cfg.family {
-        Family::Det => cdist(*g.pick(&vals)),
+        Family::Det => {
+            let v = *g.pick(&vals);
+            cdist_off(g, v)
+        }
         Family::Dyadic => {
             if g.chance(0.6) {
                 cdist(*g.pick(&vals))
@@ -1100,6 +1137,81 @@ pub fn shrink_machine(m: &Machine) -> Vec<Machine> {
     }
     out
 }
+
+/// make exactly one field of a valid machine invalid
+pub fn invalidate(g: &mut Gen, mut m: Machine) -> (Machine, String) {
+    let n = m.states.len();
+    let si = g.usize(n);
+    let bad_f = |g: &mut Gen| *g.pick(&[f64::NAN, f64::INFINITY, -0.5, 1.5, -1e-300, 1.0000000000000002]);
+    let bad_p = |g: &mut Gen| *g.pick(&[0.0f32, -0.5, 1.5, f32::NAN, f32::INFINITY, 1.0000001]);
+    let rebuild = |st: &State, f: &mut dyn FnMut(&mut enum_map::EnumMap<maybenot::event::Event, Vec<Trans>>)| -> State {
+        let mut t = st.get_transitions();
+        f(&mut t);
+        let mut s2 = State::new(t);
+        s2.action = st.action;
+        s2.counter = st.counter;
+        s2
+    };
+    let ev = *g.pick(&ALL_EVENTS);
+    let what = match g.below(10) {
+        0 => {
+            m.max_padding_frac = bad_f(g);
+            "max_padding_frac"
+        }
+        1 => {
+            m.max_blocking_frac = bad_f(g);
+            "max_blocking_frac"
+        }
+        2 => {
+            m.states.clear();
+            "no states"
+        }
+        3 => {
+            let to = n + g.usize(3);
+            m.states[si] = rebuild(&m.states[si], &mut |t| t[ev] = vec![Trans(to, 1.0)]);
+            "transition target out of bounds"
+        }
+        4 => {
+            m.states[si] = rebuild(&m.states[si], &mut |t| t[ev] = vec![Trans(0, 0.25), Trans(0, 0.25)]);
+            "duplicate transition target"
+        }
+        5 => {
+            let p = bad_p(g);
+            m.states[si] = rebuild(&m.states[si], &mut |t| t[ev] = vec![Trans(0, p)]);
+            "transition probability outside (0,1]"
+        }
+        6 => {
+            let second = if n > 1 { 1 } else { maybenot::constants::STATE_END };
+            m.states[si] = rebuild(&m.states[si], &mut |t| t[ev] = vec![Trans(0, 0.75), Trans(second, 0.5)]);
+            "transition probabilities sum above 1"
+        }
+        7 => {
+            let d = crate::distsim::rejected_dist(g);
+            m.states[si].action = Some(match g.below(3) {
+                0 => maybenot::action::Action::SendPadding { bypass: false, replace: false, timeout: d, limit: None },
+                1 => maybenot::action::Action::BlockOutgoing { bypass: false, replace: false, timeout: cdist(1.0), duration: d, limit: None },
+                _ => maybenot::action::Action::UpdateTimer { replace: false, duration: cdist(1.0), limit: Some(d) },
+            });
+            "invalid distribution in an action"
+        }
+        8 => {
+            let d = crate::distsim::rejected_dist(g);
+            let c = maybenot::counter::Counter::new_dist(maybenot::counter::Operation::Increment, d);
+            if g.bool() {
+                m.states[si].counter.0 = Some(c);
+            } else {
+                m.states[si].counter.1 = Some(c);
+            }
+            "invalid distribution in a counter"
+        }
+        _ => {
+            m.states[si] = rebuild(&m.states[si], &mut |t| t[ev] = vec![Trans(maybenot::constants::STATE_SIGNAL + 1, 1.0)]);
+            "transition target beyond the pseudo-states"
+        }
+    };
+    (m, what.to_string())
+}
+
 
 #[cfg(test)]
 mod tests {
